@@ -632,11 +632,26 @@ pub fn minimise_cmd(inp: &Path, out: &Path) {
     };
     let crash = want.class.starts_with("crash-");
     // confirm from the recorded concrete trace first
-    let Some(conf) = test_trace(&t, &want, crash) else {
-        harness_error(&format!("violation {} did not reproduce from its recorded trace", want.class))
+    let conf = match test_trace(&t, &want, crash) {
+        Some(c) => c,
+        None => {
+            // How a read of uninitialised or released memory shows itself depends on what the heap of the
+            // process held before (the worker had executed other runs, this process has not): accept whatever
+            // violation the recorded trace produces here, under its own class, and minimise that. A trace that
+            // shows nothing at all in a fresh process stays a harness error - no replay file could reproduce it.
+            let alt = if crash { crash_violation(&t) } else { run_trace(&t, false).violation.or_else(|| crash_violation(&t)) };
+            match alt {
+                Some(v) => {
+                    eprintln!("note: recorded as {}, shows as {} in a fresh process", want.class, v.class);
+                    v
+                }
+                None => harness_error(&format!("violation {} did not reproduce from its recorded trace", want.class)),
+            }
+        }
     };
-    let budget = if crash { 150 } else { 4000 };
-    let (mt, mv, tests) = minimise(&t, &conf, budget);
+    let crash = conf.class.starts_with("crash-");
+    let budget = if std::env::var_os("GASIM_NO_SHRINK").is_some() { 0 } else if crash { 150 } else { 4000 };
+    let (mt, mv, tests) = if budget == 0 { (t.clone(), conf.clone(), 0) } else { minimise(&t, &conf, budget) };
     let hash = if crash { 0 } else { run_trace(&mt, false).hash };
     let j = replay_json(&mt, &mv, hash, t.ops.len(), tests);
     std::fs::write(out, serde_json::to_string_pretty(&j).unwrap()).unwrap_or_else(|e| harness_error(&format!("{out:?}: {e}")));
@@ -944,7 +959,13 @@ pub fn check(prop: Prop, tier: &str) -> i32 {
         std::fs::write(&inp, serde_json::to_vec(&j).unwrap()).unwrap();
         let _ = std::fs::create_dir_all(format!("{}/replays", verif_root()));
         let out = PathBuf::from(format!("{}/replays/{}-{}.json", verif_root(), prop.name(), rseed));
-        let end = run_child(&["minimise".into(), inp.to_string_lossy().to_string(), out.to_string_lossy().to_string()], &[], true);
+        let mut end = run_child(&["minimise".into(), inp.to_string_lossy().to_string(), out.to_string_lossy().to_string()], &[], true);
+        if end.code != Some(0) {
+            // candidates run inside the minimiser's process; one that makes the library trample memory can kill
+            // it. The violation itself stands: confirm the recorded trace once more and report it unshrunk.
+            eprintln!("note: the minimiser process died ({:?}/{:?}); reporting the trace as recorded", end.code, end.signal);
+            end = run_child(&["minimise".into(), inp.to_string_lossy().to_string(), out.to_string_lossy().to_string()], &[("GASIM_NO_SHRINK", "1")], true);
+        }
         let _ = std::fs::remove_dir_all(&dir);
         if end.code != Some(0) {
             harness_error(&format!("minimiser failed for run {run} seed {rseed} ({}): {} {}", v.class, end.stdout_tail, end.stderr_tail));
